@@ -234,3 +234,193 @@ func (e *cenv) fieldOf(obj ssa.Value, idx int) cval {
 	}
 	return env.eval(val)
 }
+
+// ---- residue interpretation: how a function of one unsigned integer x moves x, per residue class of x modulo 8 ----
+//
+// Abstract values: a constant, x+d (the argument shifted by a known amount), or (x+e)/8 with x+e known to be a multiple of
+// 8. With the residue r of x fixed, x%8, x&7, x&^7, x/8*8, x>>3<<3 and every comparison between constants are decided, so
+// the rounding idioms evaluate to x+delta(r) without running anything. Anything else is "unknown".
+type rval struct {
+	kind int // 0 unknown, 1 const, 2 x+d, 3 (x+d)/8 exact
+	n    int64
+}
+
+type renv struct {
+	p    *ssa.Parameter
+	r    int64
+	came map[*ssa.BasicBlock]*ssa.BasicBlock
+}
+
+func mod8(a int64) int64 { return ((a % 8) + 8) % 8 }
+
+func (e *renv) eval(v ssa.Value, depth int) rval {
+	if depth > 40 {
+		return rval{}
+	}
+	switch x := v.(type) {
+	case *ssa.Const:
+		if k, ok := constInt(x); ok {
+			return rval{1, k}
+		}
+	case *ssa.Parameter:
+		if x == e.p {
+			return rval{2, 0}
+		}
+	case *ssa.Convert:
+		return e.eval(x.X, depth+1)
+	case *ssa.Phi:
+		if from, ok := e.came[x.Block()]; ok {
+			for i, p := range x.Block().Preds {
+				if p == from {
+					return e.eval(x.Edges[i], depth+1)
+				}
+			}
+		}
+	case *ssa.BinOp:
+		a, b := e.eval(x.X, depth+1), e.eval(x.Y, depth+1)
+		if a.kind == 0 || b.kind == 0 {
+			return rval{}
+		}
+		if a.kind == 1 && b.kind == 1 {
+			switch x.Op {
+			case token.ADD:
+				return rval{1, a.n + b.n}
+			case token.SUB:
+				return rval{1, a.n - b.n}
+			case token.MUL:
+				return rval{1, a.n * b.n}
+			case token.QUO:
+				if b.n != 0 {
+					return rval{1, a.n / b.n}
+				}
+			case token.REM:
+				if b.n != 0 {
+					return rval{1, a.n % b.n}
+				}
+			case token.AND:
+				return rval{1, a.n & b.n}
+			case token.AND_NOT:
+				return rval{1, a.n &^ b.n}
+			case token.SHL:
+				if b.n >= 0 && b.n < 32 {
+					return rval{1, a.n << uint(b.n)}
+				}
+			case token.SHR:
+				if b.n >= 0 && b.n < 32 {
+					return rval{1, a.n >> uint(b.n)}
+				}
+			}
+			return rval{}
+		}
+		switch {
+		case a.kind == 2 && b.kind == 1:
+			res := mod8(e.r + a.n)
+			switch x.Op {
+			case token.ADD:
+				return rval{2, a.n + b.n}
+			case token.SUB:
+				return rval{2, a.n - b.n}
+			case token.REM:
+				if b.n == 8 {
+					return rval{1, res}
+				}
+			case token.AND:
+				if b.n == 7 {
+					return rval{1, res}
+				}
+			case token.AND_NOT:
+				if b.n == 7 {
+					return rval{2, a.n - res}
+				}
+			case token.QUO:
+				if b.n == 8 {
+					return rval{3, a.n - res}
+				}
+			case token.SHR:
+				if b.n == 3 {
+					return rval{3, a.n - res}
+				}
+			}
+		case a.kind == 1 && b.kind == 2:
+			if x.Op == token.ADD {
+				return rval{2, a.n + b.n}
+			}
+		case a.kind == 3 && b.kind == 1:
+			switch x.Op {
+			case token.ADD:
+				return rval{3, a.n + 8*b.n}
+			case token.SUB:
+				return rval{3, a.n - 8*b.n}
+			case token.MUL:
+				if b.n == 8 {
+					return rval{2, a.n}
+				}
+			case token.SHL:
+				if b.n == 3 {
+					return rval{2, a.n}
+				}
+			}
+		case a.kind == 1 && b.kind == 3:
+			if x.Op == token.MUL && a.n == 8 {
+				return rval{2, b.n}
+			}
+			if x.Op == token.ADD {
+				return rval{3, b.n + 8*a.n}
+			}
+		case a.kind == 2 && b.kind == 2:
+			if x.Op == token.SUB {
+				return rval{1, a.n - b.n}
+			}
+		}
+	}
+	return rval{}
+}
+
+// residueShift: for the one-parameter function fn and x ≡ r (mod 8), the constant d with fn(x) = x + d on the path that x
+// takes, if the residue interpretation decides every branch.
+func residueShift(fn *ssa.Function, r int64) (int64, bool) {
+	if len(fn.Params) != 1 || len(fn.Blocks) == 0 {
+		return 0, false
+	}
+	e := &renv{p: fn.Params[0], r: r, came: map[*ssa.BasicBlock]*ssa.BasicBlock{}}
+	b := fn.Blocks[0]
+	seen := map[*ssa.BasicBlock]bool{}
+	for steps := 0; steps < 64; steps++ {
+		if seen[b] {
+			return 0, false
+		}
+		seen[b] = true
+		switch x := b.Instrs[len(b.Instrs)-1].(type) {
+		case *ssa.Return:
+			if len(x.Results) != 1 {
+				return 0, false
+			}
+			v := e.eval(x.Results[0], 0)
+			if v.kind != 2 {
+				return 0, false
+			}
+			return v.n, true
+		case *ssa.Jump:
+			e.came[b.Succs[0]] = b
+			b = b.Succs[0]
+		case *ssa.If:
+			cmp, ok := x.Cond.(*ssa.BinOp)
+			if !ok || !isCmp(cmp.Op) {
+				return 0, false
+			}
+			l, rr := e.eval(cmp.X, 0), e.eval(cmp.Y, 0)
+			if l.kind != 1 || rr.kind != 1 {
+				return 0, false
+			}
+			next := b.Succs[1]
+			if evalCmp(cmp.Op, l.n, rr.n) {
+				next = b.Succs[0]
+			}
+			e.came[next] = b
+			b = next
+		default:
+			return 0, false
+		}
+	}
+	return 0, false
+}
